@@ -125,6 +125,42 @@ def c02_oracle(full, io, b):
                     out.append({"what": f"{cfg}({src!r}) = {res!r}: number of literal {ch!r} changed", "class": "delimiter-status", "n": n,
                                 "input": f"{cfg}({src!r})"})
                     break
+    # URL level: the constructor (auto-encoding) against the RFC 3986 Appendix B split of the supplied text — decoded bytes of
+    # path / query / fragment and the delimiter status of '/', '&', '=', '+', ';' (literal stays literal, encoded stays encoded)
+    vc = View(full, io)
+    for h, n in enumerate(vc.cr):
+        f = full[n].split("\t")
+        if f[0] != "new" or f[2] != "a" or not vc.alive(h):
+            continue
+        src = dec(f[3])
+        if any(0xD800 <= ord(ch) <= 0xDFFF for ch in src):
+            continue
+        try:
+            _, auth0, path0, query0, frag0 = appendix_b(src)
+        except Exception:
+            continue
+        for comp, sup, qs in (("raw_path", path0, False), ("raw_query_string", query0, True), ("raw_fragment", frag0, False)):
+            got = vc.get(h, comp)
+            if got is None or got.startswith("!"):
+                continue
+            got = dec(got)
+            if comp == "raw_path" and auth0 and ("." in sup or "%2e" in sup.lower() or not sup):
+                continue            # dot-segment removal / '/' for an empty path are C15's and C07's business
+            norm = (lambda t: t.replace("+", " ")) if qs else (lambda t: t)       # in a query '+' and ' ' both mean a space
+            if pct_bytes(norm(sup)) != pct_bytes(norm(got)):
+                out.append(fail(vc, h, comp, f"URL({src!r}).{comp} = {got!r}: decodes to {pct_bytes(got)!r}, the supplied {sup!r} to {pct_bytes(sup)!r}", "constructor-decoded-bytes"))
+                break
+            delims = "/" if comp == "raw_path" else ("&=+;" if qs else "")
+            bad = None
+            for ch in delims:
+                esc = "%%%02X" % ord(ch)
+                lit_sup = sup.count(ch) + (sup.count(" ") if qs and ch == "+" else 0)
+                if lit_sup != got.count(ch) or sup.upper().count(esc) != got.upper().count(esc):
+                    bad = ch
+                    break
+            if bad:
+                out.append(fail(vc, h, comp, f"URL({src!r}).{comp} = {got!r}: the literal/encoded status of {bad!r} differs from the supplied {sup!r}", "constructor-delimiter-status"))
+                break
     # URL level: a modifier must not change the decoded bytes of the components it does not target
     vv = View(full, io)
     tgt = {"with_user": {"raw_user"}, "with_password": {"raw_password"}, "with_host": set(), "with_port": set(), "with_scheme": set(),
